@@ -329,6 +329,14 @@ Section Build.
     destruct (accumulate nonstr (PDir n d ents)) as [m| | |] eqn:EA; cbn [bind] in H; try discriminate.
     destruct (accumulate_names nonstr _ _ Hwf EA) as (HW & HN & HI).
     rewrite (mapM_hash_NH m HN) in H. cbn [bind] in H.
+    (* robust against a unit-valued check step between the hash step and the rules (w-pipe: hash_check) *)
+    try match type of H with
+        | bind ?e _ = _ =>
+            lazymatch e with
+            | pipe_rules => fail
+            | _ => destruct e as [[]| | |]; cbn [bind] in H; try discriminate
+            end
+        end.
     destruct pipe_rules as [rules| | |] eqn:ER; cbn [bind] in H; try discriminate.
     destruct (nameref_transform cs nonstr rules m) as [m2| | |] eqn:E2; cbn [bind] in H; try discriminate.
     destruct (ignore_local m2) as [m2l| | |] eqn:EL; cbn [bind] in H; try discriminate.
